@@ -237,3 +237,11 @@ Proof.
   rewrite apply_entry_tail. unfold entry_sopts, entry_assignment, overlay_entry, has_creds. cbn [v_has_user v_has_pass v_pass_all].
   destruct (nonempty (e_user rc) && nonempty (e_pass rc)); reflexivity.
 Qed.
+
+(* Manager.downloadAll (and the two command-line callers) construct the option list they hand
+   to DownloadTo on the way to the call - in downloadAll: inside the loop iteration - and do
+   not append to a slice that outlives it *)
+Lemma options_fresh_source :
+  fresh_list manager_download_all_options_src = true /\
+  fresh_list locate_chart_options_src = true /\ fresh_list pull_run_options_src = true.
+Proof. vm_compute. repeat split. Qed.
